@@ -8,6 +8,8 @@ PROPS["C08"] = dict(
         dict(name="enum", module="MC_C08",
              cfg={"quick": "MC_C08_quick.cfg", "thorough": "MC_C08_thorough.cfg"},
              timeout={"quick": 300, "thorough": 1500}),
+        dict(name="rich", module="MC_C08", cfg={"quick": "MC_C08_rich1.cfg", "thorough": "MC_C08_rich.cfg"},
+             timeout={"quick": 300, "thorough": 1500}),
     ],
     nontrivial=lambda r: any(t for t in (r.get("tags") or []) if not t.startswith("ty:")),
     rule="one case per expression tree (typed, every operator choice on every tree shape up to MaxOps operators, "
